@@ -49,6 +49,8 @@ macro_rules! call {
 mod derive;
 #[path = "c19/typed.rs"]
 mod typed;
+#[path = "c19/jtext.rs"]
+mod jtext;
 
 impl Drv {
     pub fn new() -> Drv {
@@ -838,6 +840,8 @@ fn replay(drv: &mut Drv, out: &mut Out, case: &serde_json::Value, verbose: bool)
         "jfloat" => run_json_float(drv, out, u64::from_str_radix(case["bits"].as_str().unwrap_or("0"), 16).unwrap_or(0), verbose),
         "derive" => derive::replay(drv, out, case),
         "typed" => typed::replay(drv, out, case),
+        "jser" => jtext::replay_jser(drv, out, case),
+        "jde" => jtext::replay_jde(drv, out, case),
         a => println!("unknown replay area {:?}", a),
     }
 }
@@ -1013,6 +1017,14 @@ fn main() {
     }
     // typed JSON round trips through derived Serialize / Deserialize
     typed::run(&mut drv, &mut out, args.seed, big);
+    // the JSON text layer on exactly-shaped values / arbitrary texts (correspondence with `StdJsonText`)
+    let t0 = std::time::Instant::now();
+    jtext::run_ser(&mut drv, &mut out, args.seed, big);
+    let t1 = std::time::Instant::now();
+    jtext::run_de(&mut drv, &mut out, args.seed, big);
+    if std::env::var("C19_TIMING").is_ok() {
+        eprintln!("jser {:?}  jde {:?}", t1 - t0, t1.elapsed());
+    }
     // derived Eq / Show on generated algebraic types
     derive::run(&mut drv, &mut out, args.seed, big);
 
